@@ -2,7 +2,7 @@
 from hypothesis import strategies as st
 
 VALUES = ["a", "bc", "xyz", "q", "", "mn"]
-SLOT_NAMES = ["a", "b", "s1", "s2", "default"]
+SLOT_NAMES = ["a", "b", "s1", "s2", "default", "x-y", "\u00e91"]  # incl. a name that needs escaping in is_filled and a non-ASCII one
 DATA_KEYS = ["k1", "k2"]
 ELEM_TAGS = ["div", "span", "p", "section"]
 
@@ -255,8 +255,11 @@ class Builder:
         n = {"t": "comp", "name": target["name"], "kwargs": kwargs, "only": bool(self.cfg["only"] and self.chance(12)), "body": None}
         slots = target["_slots"]
         r = self.integer(0, 99)
-        if r < 20:
+        if r < 17:
             n["body"] = None
+        elif r < 20:
+            # nothing but whitespace and comments between the tags: documented to count as "no content"
+            n["body"] = {"kind": "implicit", "c": [{"t": "text", "s": self.pick([" ", " {# note #} ", "\n{# a #}\n{# b #} ", "{# only #}", "  \n"])}]}
         elif r < 45:
             n["body"] = {"kind": "implicit", "c": self.nodes(scope, depth + 1, comp_index, 1, "fillbody")}
         else:
